@@ -695,7 +695,7 @@ def _forced_conflict(draw, base):
     n = len(base["cells"])
     shape = draw(st.sampled_from(["del_vs_edit", "edit_vs_del", "both_edit_source", "both_edit_outputs", "both_edit_meta",
                                   "both_insert_same_pos", "both_insert_similar", "both_insert_runs", "both_insert_runs", "insert_next_to_edit", "insert_next_to_del",
-                                  "both_append_nonl", "both_attach", "both_attach_leftover", "same_insert_next_line_edit", "same_insert_next_line_edit", "both_add_outputs_shared", "both_add_outputs_shared", "attach_del_vs_edit", "out_insert_vs_change", "out_insert_vs_change", "same_output_line_small_edits", "same_output_line_small_edits", "both_replace_sub", "both_replace_sub", "both_replace_sub", "both_edit_text_with_nul", "rerun_print_differs_result_same", "rerun_print_differs_result_same", "both_nbmeta", "both_minor", "both_del", "both_ec", "both_change_id",
+                                  "both_append_nonl", "both_attach", "both_attach_leftover", "same_insert_next_line_edit", "same_insert_next_line_edit", "both_add_outputs_shared", "both_add_outputs_shared", "attach_del_vs_edit", "out_insert_vs_change", "out_insert_vs_change", "same_output_line_small_edits", "same_output_line_small_edits", "both_replace_sub", "both_replace_sub", "both_replace_sub", "both_edit_text_with_nul", "rerun_print_differs_result_same", "rerun_print_differs_result_same", "both_edit_tags", "both_edit_tags", "both_nbmeta", "both_minor", "both_del", "both_ec", "both_change_id",
                                   "both_same_edit", "both_edit_same_output", "both_edit_same_output", "transient_meta", "type_vs_edit", "type_vs_edit", "type_vs_edit", "both_rerun", "both_rerun", "both_rerun", "both_rerun", "two_outputs", "two_outputs", "both_insert_block"]))
     usedl, usedr = _ids(l), _ids(r)
     if shape == "both_insert_runs":
@@ -941,6 +941,15 @@ def _forced_conflict(draw, base):
                     o["text"] = txt
                 else:
                     o["execution_count"] = ec
+    elif shape == "both_edit_tags":
+        # both sides edit the cell's tags (a set written as a list): one replaces a tag, the other adds the same new tag, or both add it
+        # at different ends
+        t0 = draw(st.sampled_from([["draft"], ["a", "b"], ["draft", "slow"], []]))
+        new = draw(st.sampled_from(["final", "x"]))
+        variants = [[new] + t0[1:] if t0 else [new], t0 + [new], [new] + t0, [t for t in t0 if t != t0[0]] + [new] if t0 else [new]]
+        tl, tr = draw(st.sampled_from(variants)), draw(st.sampled_from(variants))
+        for nb_, tags in ((base, t0), (l, tl), (r, tr)):
+            nb_["cells"][i]["metadata"] = dict(nb_["cells"][i]["metadata"], tags=list(tags))
     elif shape == "both_edit_text_with_nul":
         # both sides edit the same line of a source that holds a NUL character (valid JSON; external merge tools call it binary)
         src = "a = 1\nb = '\x00'\nc = 3\n"
